@@ -66,6 +66,7 @@ fn run_trace(line: &str, dir: &str) -> String {
             None
         }
     };
+    let mut held_drop: Option<std::thread::JoinHandle<()>> = None;
     for it in &items {
         let t: Vec<&str> = it.split_whitespace().collect();
         match t[0] {
@@ -93,10 +94,41 @@ fn run_trace(line: &str, dir: &str) -> String {
                 shim::logline(format!("c snap {}", disk_str(dir)));
             }
             "drop" => {
+                // dropping waits for the worker: it must be free to run
                 if let Some(s) = st.take() {
-                    drop(s);
                     shim::logline("c drop".to_string());
+                    shim::set_gate(false);
+                    drop(s);
+                    shim::set_gate(true);
+                    shim::logline("c dropped".to_string());
                 }
+            }
+            "dropheld" => {
+                // drop while the worker is held at its gate: does drop return before the
+                // worker has finished?
+                if let Some(s) = st.take() {
+                    shim::logline("c drop".to_string());
+                    let (tx, rx) = std::sync::mpsc::channel();
+                    let h = std::thread::spawn(move || {
+                        drop(s);
+                        let _ = tx.send(());
+                    });
+                    let returned = rx.recv_timeout(std::time::Duration::from_millis(150)).is_ok();
+                    shim::logline(format!("c dropheld {}", if returned { "returned" } else { "blocked" }));
+                    if returned {
+                        let _ = h.join();
+                    } else {
+                        held_drop = Some(h);
+                    }
+                }
+            }
+            "release" => {
+                shim::set_gate(false);
+                if let Some(h) = held_drop.take() {
+                    let _ = h.join();
+                }
+                shim::set_gate(true);
+                shim::logline("c dropped".to_string());
             }
             "open" => {
                 shim::logline(format!("c open {}", t[1..].join(" ")));
@@ -125,6 +157,9 @@ fn run_trace(line: &str, dir: &str) -> String {
     }
     // let everything run out
     shim::set_gate(false);
+    if let Some(h) = held_drop.take() {
+        let _ = h.join();
+    }
     std::thread::sleep(std::time::Duration::from_millis(5));
     let snap = disk_str(dir);
     drop(st);
